@@ -469,8 +469,16 @@ func (g *Gen) trQuant(e *CQuant, env *Env) (string, VType) {
 			}
 		}
 	}
+	qid := "q"
+	if env.clause != nil {
+		qid = mangle(env.clause.Kind + "_" + env.clause.Owner + "_" + env.clause.Name)
+	}
+	g.nqid++
+	qid = fmt.Sprintf("%s_%d", qid, g.nqid)
 	if len(pats) > 0 {
-		body = "(! " + body + " " + strings.Join(pats, " ") + ")"
+		body = "(! " + body + " " + strings.Join(pats, " ") + " :qid " + qid + ")"
+	} else {
+		body = "(! " + body + " :qid " + qid + ")"
 	}
 	for n, o := range saved {
 		if o == nil {
